@@ -54,3 +54,15 @@ fn vk_ema_reset() {
     e.reset();
     assert!(e.is_new && e.current.to_bits() == 0.0f64.to_bits() && e.period == per && e.k.to_bits() == k.to_bits());
 }
+
+// @harness vk_ema_clone props=C05 kind=complete tier=quick
+// derived Clone copies every field bit-exactly; feeding the clone does not change the original
+#[kani::proof]
+fn vk_ema_clone() {
+    let e = ExponentialMovingAverage { period: kani::any(), k: kani::any(), current: kani::any(), is_new: kani::any() };
+    let mut c = e.clone();
+    assert!(c.period == e.period && c.k.to_bits() == e.k.to_bits() && c.current.to_bits() == e.current.to_bits() && c.is_new == e.is_new);
+    let (cur, fresh) = (e.current.to_bits(), e.is_new);
+    let _ = c.next(kani::any::<f64>());
+    assert!(e.current.to_bits() == cur && e.is_new == fresh);
+}
